@@ -278,6 +278,18 @@ def _parse_toml(cfg_buffer: typ.IO[str]) -> RawConfig:
     return raw_cfg
 
 
+def _normalized_path(filepath: str) -> str:
+    # NOTE: normalized, so that the path can be compared to those
+    #   reported by git/hg (pathlib keeps "docs/../README.md" as it is).
+    #   Unless ".." follows a symlinked directory, then the shorter
+    #   spelling is the path of another file.
+    normpath = os.path.normpath(filepath)
+    if os.path.realpath(normpath) == os.path.realpath(filepath):
+        return normpath
+    else:
+        return filepath
+
+
 def _iter_glob_expanded_file_patterns(
     raw_patterns_by_file: RawPatternsByFile,
 ) -> typ.Iterator[FileRawPatternsItem]:
@@ -286,13 +298,11 @@ def _iter_glob_expanded_file_patterns(
 
         if filepaths:
             for filepath in filepaths:
-                # NOTE: normalized, so that the path can be compared to those
-                #   reported by git/hg (pathlib keeps "docs/../README.md" as it is)
-                yield os.path.normpath(str(filepath)), raw_patterns
+                yield _normalized_path(str(filepath)), raw_patterns
         else:
             logger.warning(f"Invalid config, no such file: {filepath_glob}")
             # fallback to treating it as a simple path (e.g. "./pages/[id].tsx")
-            yield os.path.normpath(filepath_glob), raw_patterns
+            yield _normalized_path(filepath_glob), raw_patterns
 
 
 def _as_pattern_list(raw_patterns: typ.Union[str, typ.List[str]]) -> typ.List[str]:
